@@ -213,6 +213,26 @@ class C02(SimSpec):
             scen["groups"][0]["time_based"] = False
             scen["user"] = {}
         scen["policy"]["finish_w"] = rng.choice([0.1, 0.3, 1.0])  # blockers finish late
+        if i % 6 == 1:
+            # one failure cancels several flagged jobs that also wait for a job that is still running, all in one node queue
+            sc2 = scenario.gen_scenario(rng, max_jobs=9, min_jobs=5, shapes=["fanfail"], fail_p=0.0)
+            by = {j["name"]: j for j in sc2["jobs"]}
+            names = sorted(by)
+            by[names[0]]["rc"] = rng.choice([1, 3])
+            for nm in names[2:-1]:
+                by[nm]["flag"] = True
+            for nm in (names[0], names[1], names[-1]):
+                by[nm]["flag"] = False
+            sc2["groups"] = sc2["groups"][:1]
+            g = sc2["groups"][0]
+            g.update(time_based=False, batch=12, try_add=True, procs_opt=rng.choice([2, 3]))
+            for j in sc2["jobs"]:
+                j["group"] = g["name"]
+            if rng.random() < 0.4:
+                sc2["mode"] = "local"
+                sc2["user"] = {}
+            sc2["policy"]["finish_w"] = 0.1
+            return sc2
         if i % 6 == 3:
             # dependency order must also hold among the jobs that a resubmission reruns
             fl = lambda: {"failed": True, "missing": True, "successful": rng.random() < 0.4}
@@ -432,6 +452,13 @@ class C05(SimSpec):
             for g in scen["groups"]:
                 g["batch"] = rng.randint(1, 2)
         scen["user"] = {"try_submit": rng.choice([0, 0, 1]), "show_status": rng.choice([0, 1])}
+        if i % 8 == 3:
+            # progress and laziness are also judged in the rounds of a resubmission (ready = the rerun blockers have outcomes)
+            fl = lambda: {"failed": True, "missing": True, "successful": rng.random() < 0.3}
+            scen["resubmit"] = {"rounds": [fl()]}
+            for j in scen["jobs"]:
+                if rng.random() < 0.35:
+                    j["rc"] = rng.choice([1, 2])
         if i % 8 == 5:
             endgame(scen, rng)
             scen["endgame_k"] = 1 + (i // 8) % 10  # which critical point of the late round is stalled: all of them in turn
@@ -443,6 +470,13 @@ class C05(SimSpec):
             scen["policy"]["kind"] = rng.choice(["walk", "sticky"])
             scen["policy"]["finish_w"] = rng.choice([0.2, 1.0])
         return scen
+
+    def tasks(self, tier, seed):
+        out = SimSpec.tasks(self, tier, seed)
+        for t in out:
+            if t["args"]["scen"].get("resubmit"):
+                t["args"]["cls"] = "sim.resub:ResubSim"
+        return out
 
     def nontrivial(self, t, r):
         return (r.get("recoveries") or 0) >= 1 or ((r.get("rounds") or 0) >= 3 and len(r.get("round_hosts") or []) >= 2)
